@@ -14,18 +14,14 @@ static int ref_cast(int nf, const int *f, int nt, const int *t) {
   return 1;
 }
 int main(void) {
-#ifdef NF
-  int nf = NF, nt = NT;      /* concrete lengths (the driver enumerates all pairs): symbolic lengths make the pointer arithmetic explode */
-#else
   IN(int, nf); IN(int, nt);
-#endif
-  IN_ARR(int, f, 8); IN_ARR(int, t, 8);      /* the wrapper reads 8 selectors; only the first nf / nt matter */
+  IN_ARR(int, f, NMAX); IN_ARR(int, t, NMAX);
   VASSUME(nf >= 0 && nf <= NMAX && nt >= 0 && nt <= NMAX);
 #ifdef EMPTY
   /* an empty struct dtype on one side */
   IN(int, dir);
   VASSUME(nt >= 1);
-  for (int i = 0; i < 8; i++) { VASSUME(t[i] >= 0 && t[i] <= 2); }
+  for (int i = 0; i < NMAX; i++) { VASSUME(t[i] >= 0 && t[i] <= 2); }
   int re = d_cast_empty(nt, (char *) t, dir != 0);
   OUT(re, re);
   VASSERT(re == 0, "an empty dtype is not castable to or from a non-empty one, and asking does not crash");
@@ -33,7 +29,7 @@ int main(void) {
   return 0;
 #endif
   VASSUME(nf >= 1 && nt >= 1);
-  for (int i = 0; i < 8; i++) { VASSUME(f[i] >= 0 && f[i] <= 2); VASSUME(t[i] >= 0 && t[i] <= 2); }
+  for (int i = 0; i < NMAX; i++) { VASSUME(f[i] >= 0 && f[i] <= 2); VASSUME(t[i] >= 0 && t[i] <= 2); }
   int r1 = d_cast(nf, (char *) f, nt, (char *) t);
   int r2 = d_cast(nt, (char *) t, nf, (char *) f);
   int ref = ref_cast(nf, f, nt, t);
